@@ -24,9 +24,17 @@ def props_all():
     m = json.load(open(os.path.join(VERIF, "MANIFEST.json")))
     return [c["property_id"] for c in m["checks"]]
 
+BIN = None  # private build of the checker: edits under t38check/ during a run do not disturb it
+
+def goenv():
+    env = dict(os.environ, GOFLAGS="-mod=mod", GOPROXY="off", GOWORK="off")
+    env.pop("GOTOOLCHAIN", None)
+    env.pop("GOSUMDB", None)
+    return env
+
 def run_check(wt, prop, evdir):
-    env = dict(os.environ, VERIF_REPO=wt, VERIF_EVIDENCE_DIR=evdir)
-    r = sh([os.path.join(VERIF, "check"), prop, "quick"], env=env)
+    r = sh([BIN, "-property", prop, "-tier", "quick", "-repo", wt, "-verif", VERIF,
+            "-evidence", os.path.join(evdir, prop + ".json")], env=goenv(), cwd=VERIF)
     return prop, r.returncode, r.stdout + r.stderr
 
 def job(kind, name, patch, props, wtq, evroot):
@@ -78,10 +86,14 @@ def main():
             jobs.append((os.path.basename(f), os.path.abspath(f), allp))
     else:
         sys.exit(__doc__)
-    # build the checker once
-    sh([os.path.join(VERIF, "check"), "C11", "quick"], env=dict(os.environ, VERIF_EVIDENCE_DIR=tempfile.mkdtemp()))
     root = f"/tmp/t38wt.{os.getpid()}"
     os.makedirs(root)
+    global BIN
+    BIN = os.path.join(root, "t38check")
+    b = sh(["go", "build", "-o", BIN, "."], cwd=os.path.join(VERIF, "t38check"), env=goenv())
+    if b.returncode != 0:
+        shutil.rmtree(root, ignore_errors=True)
+        sys.exit("checker does not build:\n" + b.stderr)
     wtq = queue.Queue()
     wts = []
     try:
